@@ -74,13 +74,13 @@ func (e *Env) RLocality() {
 				return true
 			}
 			if isWriteContext(stack) {
-				written[v.Name()] = true
-				if !allowed[v.Name()] {
+				written[load.CanonName(v)] = true
+				if !allowed[load.CanonName(v)] {
 					// map stores into r.Ast.* / r.Dst.* go through nested selectors and are not field writes of FileRestorer itself
-					if v.Name() == "Ast" || v.Name() == "Dst" {
+					if load.CanonName(v) == "Ast" || load.CanonName(v) == "Dst" {
 						return true
 					}
-					e.Run.Violation("R-LOCAL", "restorer field "+v.Name()+" written while rendering ("+load.FuncName(fd)+")", e.Prog.Pos(se.Pos()),
+					e.Run.Violation("R-LOCAL", "restorer field "+load.CanonName(v)+" written while rendering ("+load.FuncName(fd)+")", e.Prog.Pos(se.Pos()),
 						"state carried from one node's rendering to the next may only be position bookkeeping (cursor, marker, line table, comment list): anything else can make a node render differently depending on its neighbours")
 				}
 			}
